@@ -121,6 +121,16 @@ Next == /\ ~done /\ done' = TRUE
                   EmitS(<<"prt-geometry", ws, hv, ty>>, "prt", "img.width+scan+height",
                         PBytes(SetPart(SetPart(SetPart(SetPart(parts, wi, ws[1]), si, ws[2]), hi, hv), ti, LE16(ty))), "any", PixelFiles,
                         ws[2] = LE32(0) /\ hv = B(255,255,255,127))
+             \* coordinated: the palette data section announces K more bytes, an outer length is adjusted so that the header's own
+             \* consistency rule (overall = 8 + (head + 4) + 4 + (data + 4)) still holds, and the K bytes are really there
+             /\ \A K \in {4, 64, 3000} :
+                  LET di == IndexOf(parts, "pal.dataLen", 1)  oi == IndexOf(parts, "pal.overallLen", 1)  pi == IndexOf(parts, "palette", 1) IN
+                  Emit(<<"prt-palette-grown", K>>, "prt", "pal.dataLen+overallLen",
+                       PBytes(SetPart(SetPart(SetPart(parts, di, LE32(1024 + K)), oi, LE32(1048 + K)), pi, parts[pi].b \o [i \in 1..K |-> 170])), "any", PixelFiles)
+             /\ \A K \in {1, 4} :
+                  LET di == IndexOf(parts, "pal.dataLen", 1)  hi == IndexOf(parts, "pal.headLen", 1)  pi == IndexOf(parts, "palette", 1) IN
+                  Emit(<<"prt-palette-head-shrunk", K>>, "prt", "pal.dataLen+headLen",
+                       PBytes(SetPart(SetPart(SetPart(parts, di, LE32(1024 + K)), hi, LE32(4 - K)), pi, parts[pi].b \o [i \in 1..K |-> 170])), "any", PixelFiles)
              /\ \A pv \in {0, 1, 2, 255, 65535} : Emit(<<"prt-palindex", pv>>, "prt", "img.pal", PBytes(SetPart(parts, IndexOf(parts, "img.pal", 2), LE16(pv))), "any", PixelFiles)
              /\ \A mb \in {0, 1, 2, 3, 127, 128, 129, 130, 255} : Emit(<<"prt-framemeta", mb>>, "prt", "frame.meta", PBytes(SetPart(parts, IndexOf(parts, "frame.meta", 1), <<mb, 5>>)), "any", PixelFiles)
 Spec == Init /\ [][Next]_done
